@@ -304,6 +304,12 @@ func c14Plans() []cmdPlan {
 		b := inv{args: []string{"join"}, stdin: "multi.gb"}
 		n := []neighbour{{"format", "-F fasta", with(b, "-F", "fasta")}, {"option", "-c", with(b, "-c")}, {"primary-input", "other input", stdin(b, "multi2.gb")}}
 		plans = append(plans, cmdPlan{"join", b, n, []string{"format", "circular"}})
+		// the head of multi.gb is circular already, so -c changes nothing there:
+		// a stream whose head is linear, where it does.
+		bl := inv{args: []string{"join"}, stdin: "multi-lin.gb"}
+		plans = append(plans, cmdPlan{"join", bl, []neighbour{{"option", "-c on a stream whose head is linear", with(bl, "-c")}, {"format", "-F genbank", with(bl, "-F", "genbank")}}, nil})
+		blc := with(bl, "-c")
+		plans = append(plans, cmdPlan{"join", blc, []neighbour{{"option", "without -c, linear head", bl}, {"format", "-c -F fasta", with(blc, "-F", "fasta")}}, nil})
 	}
 	{
 		b := inv{args: []string{"pick", "1"}, stdin: "multi.gb"}
@@ -379,6 +385,44 @@ func c14Plans() []cmdPlan {
 		cmdPlan{"extract", mk("extract", "CDS", "gene"), []neighbour{{"positional", "two locators vs one locator with a blank", mk("extract", "CDS gene")}}, nil},
 		cmdPlan{"query", with(with(mk("query"), "-n", "gene"), "-n", "product"), []neighbour{{"option", "two names vs one name with a blank", with(mk("query"), "-n", "gene product")}}, nil},
 		cmdPlan{"define", with(with(mk("define", "misc_feature", "3..20"), "-q", "note=a"), "-q", "gene=x"), []neighbour{{"option", "two qualifiers vs one with a blank", with(mk("define", "misc_feature", "3..20"), "-q", "note=a gene=x")}}, nil})
+	// two switches of one command together: each pair (o1, o2) of the option
+	// neighbours of a plan gives the history "base+o1, then base+o1+o2" (and
+	// the other way round), so a key that folds one switch into another is
+	// replayed against an entry it must not share.
+	{
+		var pairs []cmdPlan
+		for _, p := range plans {
+			if p.opts == nil {
+				continue
+			}
+			var sw [][]string
+			for _, nb := range p.neigh {
+				if nb.aspect != "option" || len(nb.v.args) <= len(p.base.args) || nb.v.stdin != p.base.stdin {
+					continue
+				}
+				same := true
+				for i := range p.base.args {
+					same = same && nb.v.args[i] == p.base.args[i]
+				}
+				if same {
+					sw = append(sw, nb.v.args[len(p.base.args):])
+				}
+			}
+			if len(sw) > 4 {
+				sw = sw[:4]
+			}
+			for i := range sw {
+				for j := range sw {
+					if i == j || (len(sw[i]) > 0 && len(sw[j]) > 0 && sw[i][0] == sw[j][0]) {
+						continue
+					}
+					b1 := with(p.base, sw[i]...)
+					pairs = append(pairs, cmdPlan{p.name, b1, []neighbour{{"option", strings.Join(sw[j], " ") + " on top of " + strings.Join(sw[i], " "), with(b1, sw[j]...)}}, nil})
+				}
+			}
+		}
+		plans = append(plans, pairs...)
+	}
 	// values that begin like the option's default (or like a valid value) and
 	// go on: rejected, or simply different - never answered from the entry of
 	// the run they resemble.
@@ -451,6 +495,7 @@ func (x *c14run) loadInputs() error {
 	// multi-line qualifier values, so the outputs differ), a feature table that
 	// differs from feat1 in the blanks inside a quoted value only, and a twin of
 	// the multi-MiB stream that differs in one residue in its middle.
+	x.inputs["multi-lin.gb"] = append(append(append([]byte{}, part...), phix...), pbat...)
 	x.inputs["phix-crlf.gb"] = bytes.ReplaceAll(phix, []byte("\n"), []byte("\r\n"))
 	x.inputs["feat1-blanks.tbl"] = []byte("     misc_feature    10..40\n                     /note=\"first  one\"\n")
 	x.inputs["feat1-blank.tbl"] = []byte("     misc_feature    10..40\n                     /note=\"first one\"\n")
